@@ -175,7 +175,7 @@ impl Check for C02 {
                     && listed.contains(&p.name)
                     && p.accept == Accept::Accept
                     && p.unchoke != Unchoke::Never
-                    && p.max_accepts >= 2
+                    && p.max_accepts >= 100_000
                     && !p.script.iter().any(|s| matches!(s.act, Act::CloseFin | Act::CloseRst | Act::Silence | Act::Stall(_)))
                     && (p.has.get(i).cloned().unwrap_or(false) || p.script.iter().any(|s| s.act == Act::Gain(i as u32)))
             })
